@@ -8,6 +8,8 @@ import itertools
 
 MODES = {
     'normal': "x = 1\nprint(x)\n",
+    'two_argument_exception': "class E(Exception):\n    def __init__(self, a, b):\n        Exception.__init__(self, a, b)\nraise E(1, 2)\n",
+    'raise_SyntaxError_no_line': "raise SyntaxError('m', ('answer.py', None, None, None))\n",
     'deep_recursion_then_raise': "def f(n):\n    if n == 0:\n        raise ValueError('deep')\n    return f(n - 1)\nf(12)\n",
     'many_inputs_then_error': "for i in range(35):\n    input()\nprint(1 / 0)\n",
     'open_submission_source': "open('answer.py').read()\n",
@@ -90,6 +92,11 @@ def fresh(tracer):
 
 def execute(sb, entry, mode):
     code = MODES[mode]
+    if entry == 'threaded_run_with_import':
+        sb.threaded = True
+        sb.allowed_time = 2
+        sb.report.submission.files['helper.py'] = code
+        return sb.run("import helper\n", filename='answer.py')
     if mode == 'timeout':
         sb.threaded = True
         sb.allowed_time = 0.3
@@ -190,6 +197,17 @@ def bounded(arg):
             if mode in ('broken_str', 'broken_repr'):
                 canon += ' (' + mode + ')'
             failures.append({'id': what, 'canon': canon, 'detail': detail, 'entry': entry, 'mode': mode})
+    # threaded execution of a file that imports a second student file
+    for mode in ('normal', 'ValueError', 'sys_exit', 'two_argument_exception', 'custom_exception'):
+        evaluations += 1
+        distinct.add(('threaded_run_with_import', mode, 'none'))
+        try:
+            fails = one('threaded_run_with_import', mode, 'none', prop)
+        except BaseException as e:
+            fails = [('harness', 'threaded_run_with_import/%s: harness error %r' % (mode, e))]
+        for what, detail in fails:
+            failures.append({'id': what, 'canon': what + ' (threaded nested import, %s)' % mode, 'detail': detail,
+                             'entry': 'threaded_run_with_import', 'mode': mode})
     # a sequence: after a timed-out threaded execution, a threaded execution that exits by itself is the student's own
     # exit (contained, reported, everything restored) - not a second abandoned worker
     try:
